@@ -1896,7 +1896,8 @@ impl platform::Args for ElfArgs {
     }
 
     fn should_emit_got_plt_syms(&self) -> bool {
-        self.got_plt_syms
+        // The symbols go into .symtab, which doesn't get written when we're stripping everything.
+        self.got_plt_syms && !self.should_strip_all()
     }
 
     fn copy_relocations_enabled(&self) -> crate::args::CopyRelocations {
